@@ -53,21 +53,21 @@ theorem offline_rejected_fails_at_submission (e : Engine) (ev : UserEvent) (idx 
   | publish p i t =>
     simp only [userIndex, Option.some.injEq] at hidx; subst hidx
     simp only [userPacket] at hrej
-    simp [Engine.handleUser, Engine.opPassesPolicy, Engine.createOp, hst, hrej, Engine.completeFailure, Engine.op?,
+    simp [Engine.handleUser, Engine.submit, Engine.opPassesPolicy, Engine.createOp, hst, hrej, Engine.completeFailure, Engine.op?,
       lookup_mapInsert_self, Engine.releaseIds, Engine.applyAckable, Engine.applyDisconnectCompletion, isDisconnect, Engine.emit,
       lookup_mapErase_self, Res.isOk]
     try (split <;> simp [lookup_mapErase_self])
   | subscribe p i t =>
     simp only [userIndex, Option.some.injEq] at hidx; subst hidx
     simp only [userPacket] at hrej
-    simp [Engine.handleUser, Engine.opPassesPolicy, Engine.createOp, hst, hrej, Engine.completeFailure, Engine.op?,
+    simp [Engine.handleUser, Engine.submit, Engine.opPassesPolicy, Engine.createOp, hst, hrej, Engine.completeFailure, Engine.op?,
       lookup_mapInsert_self, Engine.releaseIds, Engine.applyAckable, Engine.applyDisconnectCompletion, isDisconnect, Engine.emit,
       lookup_mapErase_self, Res.isOk]
     try (split <;> simp [lookup_mapErase_self])
   | unsubscribe p i t =>
     simp only [userIndex, Option.some.injEq] at hidx; subst hidx
     simp only [userPacket] at hrej
-    simp [Engine.handleUser, Engine.opPassesPolicy, Engine.createOp, hst, hrej, Engine.completeFailure, Engine.op?,
+    simp [Engine.handleUser, Engine.submit, Engine.opPassesPolicy, Engine.createOp, hst, hrej, Engine.completeFailure, Engine.op?,
       lookup_mapInsert_self, Engine.releaseIds, Engine.applyAckable, Engine.applyDisconnectCompletion, isDisconnect, Engine.emit,
       lookup_mapErase_self, Res.isOk]
     try (split <;> simp [lookup_mapErase_self])
@@ -84,19 +84,19 @@ theorem preserved_is_queued (e : Engine) (ev : UserEvent) (idx : Nat) (hidx : us
     simp only [userPacket] at hkeep
     have : (e.createOp (.publish p) (some (i, t))).1.opPassesPolicy (.publish p) = true := by
       simpa [Engine.createOp, Engine.opPassesPolicy] using hkeep
-    simp [Engine.handleUser, this, Engine.enqueue, createOp_lookup]
+    simp [Engine.handleUser, Engine.submit, this, Engine.enqueue, createOp_lookup]
     simp [Engine.createOp, Engine.op?, lookup_mapInsert_self]
   | subscribe p i t =>
     simp only [userPacket] at hkeep
     have : (e.createOp (.subscribe p) (some (i, t))).1.opPassesPolicy (.subscribe p) = true := by
       simpa [Engine.createOp, Engine.opPassesPolicy] using hkeep
-    simp [Engine.handleUser, this, Engine.enqueue, createOp_lookup]
+    simp [Engine.handleUser, Engine.submit, this, Engine.enqueue, createOp_lookup]
     simp [Engine.createOp, Engine.op?, lookup_mapInsert_self]
   | unsubscribe p i t =>
     simp only [userPacket] at hkeep
     have : (e.createOp (.unsubscribe p) (some (i, t))).1.opPassesPolicy (.unsubscribe p) = true := by
       simpa [Engine.createOp, Engine.opPassesPolicy] using hkeep
-    simp [Engine.handleUser, this, Engine.enqueue, createOp_lookup]
+    simp [Engine.handleUser, Engine.submit, this, Engine.enqueue, createOp_lookup]
     simp [Engine.createOp, Engine.op?, lookup_mapInsert_self]
 
 /-- **At disconnection the queues are split by the same table**: every retained id passes the policy, every
